@@ -4,13 +4,13 @@ from collections import Counter
 from . import core, roots
 
 
-def gen_walk(r, root, plies, nest_prob=0.35, queries_in_nest=0.3):
+def gen_walk(r, root, plies, nest_prob=0.35, queries_in_nest=0.3, nest_mode="u"):
     ops = ["new " + root, "obs", "moves c", "obs", "moves u", "obs"]
     for _ in range(plies):
         if r.random() < nest_prob:
             d = r.randint(1, 4)
             for _ in range(d):
-                ops += ["push u %d" % r.randrange(1 << 20), "obs"]
+                ops += ["push %s %d" % (nest_mode if nest_mode != "mix" else r.choice("cu"), r.randrange(1 << 20)), "obs"]
                 if r.random() < queries_in_nest:
                     ops += ["moves c", "obs"]
             for _ in range(d):
@@ -23,9 +23,10 @@ def gen_walk(r, root, plies, nest_prob=0.35, queries_in_nest=0.3):
 def gen_cases(seed, salt, n_cases, plies):
     r = core.rng(seed, salt)
     cases = []
+    mode = "mix" if salt in ("C02", "C11") else "u"
     for i in range(n_cases):
         root = roots.ALL[i % len(roots.ALL)] if i < 2 * len(roots.ALL) else r.choice(roots.ALL)
-        cases.append(gen_walk(r, root, r.randint(max(2, plies // 3), plies)))
+        cases.append(gen_walk(r, root, r.randint(max(2, plies // 3), plies), nest_mode=mode))
     return cases
 
 
@@ -187,7 +188,7 @@ def analyze_case(pid, case, outs, queries, stats, kinds, positions):
                 last_move = d[0]
                 if name == "push":
                     stack.append(last_obs)
-                    pending = "push"
+                    pending = "push" if op.split(" ")[1] == "c" and len(stack) == 1 else "pushu"
                 else:
                     stack, pending, lists = [], "hist", ({"low": lists["low"]} if "low" in lists else {})
             else:
